@@ -55,6 +55,20 @@ func (o *c11Obj) Sum(xs ...int64) int64 {
 }
 
 // named non-struct types with methods on the value and on the pointer
+// a method of the outer type named like a field promoted from an embedded struct: Go resolves the name to the shallowest
+// member, the method
+type c11ItemBase struct {
+	ID    int64
+	Label string
+}
+type c11Item struct {
+	c11ItemBase
+	N int64
+}
+
+func (it c11Item) ID() string                   { return fmt.Sprintf("item-%d", it.c11ItemBase.ID) }
+func (it *c11Item) Label(l string, n int64) string { return fmt.Sprintf("%s%s/%d", l, it.c11ItemBase.Label, n+it.N) }
+
 type c11Stack []int64
 
 func (s *c11Stack) Push(xs ...int64) int64 { *s = append(*s, xs...); return int64(len(*s)) }
@@ -321,6 +335,8 @@ func c11Env(h *c11Host) *env.Env {
 	e.Define("ctr", new(c11Counter))
 	e.Define("dict", &c11Dict{})
 	e.Define("vstk", c11Stack{4, 5})
+	e.Define("item", c11Item{c11ItemBase{7, "seven"}, 1})
+	e.Define("pitem", &c11Item{c11ItemBase{8, "eight"}, 2})
 	// a slice passed for a parameter of another slice type with the same element type is converted as Go converts it:
 	// same backing array, nil stays nil
 	e.Define("sortdesc", func(x c11Stack) int64 {
@@ -548,6 +564,11 @@ func c11Cases(rnd *Rand) []c11Case {
 	add("stknil(nilints)", "stknil() => "+p(true), "a nil []int64 arrives as a nil value of the named slice type")
 	add("stkcap(ints3[0:1])", "stkcap() => "+p(int64(3)), "the capacity is kept")
 	add("setfirst(vstk); vstk.Top() + vstk[0]", "setfirst() => "+p(int64(104)), "a value of a named slice type passed for []int64 shares its backing array")
+	add("item.ID()", " => "+p("item-7"), "a method named like a field promoted from an embedded struct is the member of that name (value)")
+	add("pitem.ID()", " => "+p("item-8"), "... through a pointer")
+	add("pitem.Label(\"<\", 10)", " => "+p("<eight/12"), "a pointer-receiver method named like a promoted field, through a pointer")
+	add("f = pitem.ID; f()", " => "+p("item-8"), "... as a method value")
+	add("[item.N, pitem.N]", " => "+p([]interface{}{int64(1), int64(2)}), "the own field next to them reads as a field")
 	add("f = stk.Push; f(1, 2); f(3)", " => "+p(int64(3)), "method value of a pointer-receiver method of a named slice type")
 	// a value that a Go function hands out as a non-empty interface type is the value it holds, wherever it is used next
 	add("wanterrptr(mkerr(3))", "mkerr("+p(int64(3))+"); wanterrptr() => "+p(int64(3)), "an error result passed straight on to a parameter of its concrete pointer type")
